@@ -17,6 +17,8 @@ import (
 	"github.com/B1NARY-GR0UP/originium/pkg/logger"
 	"github.com/B1NARY-GR0UP/originium/pkg/verifhook"
 	"github.com/B1NARY-GR0UP/originium/types"
+
+	"verifharness/internal/core"
 )
 
 type quiet struct{}
@@ -41,6 +43,9 @@ type Hooks struct {
 	dmu     sync.Mutex
 	rng     *rand.Rand
 	profile string
+
+	flushAtQueue      atomic.Int64
+	commitsInProgress atomic.Int64
 
 	// FS/FSDone chained handlers (crash package)
 	FS     func(op, path string)
@@ -113,7 +118,23 @@ func (h *Hooks) SetProfile(profile string, seed int64) {
 
 func (h *Hooks) point(name string) {
 	h.Activity.Add(1)
+	core.Activity.Add(1)
 	h.counter("pt." + name).Add(1)
+	// evidence only: did a sender wait for the flush queue, did a Begin arrive during a commit
+	switch name {
+	case "rawset.beforeQueue":
+		h.flushAtQueue.Store(h.counter("flush").Load() + h.counter("pt.run.dequeued").Load())
+	case "rawset.afterQueue":
+		if h.counter("flush").Load()+h.counter("pt.run.dequeued").Load() > h.flushAtQueue.Load() {
+			h.counter("queue.sender-waited").Add(1)
+		}
+	case "commit.gotTs":
+		h.commitsInProgress.Add(1)
+	case "readTs.beforeWait":
+		if h.commitsInProgress.Load() > 0 {
+			h.counter("begin.during-commit").Add(1)
+		}
+	}
 	h.dmu.Lock()
 	p := h.profile
 	if p == "" || p == "none" || h.rng == nil {
@@ -162,11 +183,15 @@ func (h *Hooks) point(name string) {
 
 func (h *Hooks) event(name string) {
 	h.Activity.Add(1)
+	core.Activity.Add(1)
 	h.counter(name).Add(1)
 	if name == "rotate" || name == "flush" || strings.HasPrefix(name, "compact.L") {
 		if n := h.InFlight.Load(); n >= 2 {
 			h.counter("overlap." + name[:min(len(name), 7)]).Add(1)
 		}
+	}
+	if name == "commit.done" {
+		h.commitsInProgress.Add(-1)
 	}
 	if f := h.OnEvent; f != nil {
 		f(name)
@@ -177,6 +202,7 @@ func init() {
 	verifhook.Set(&verifhook.Handler{
 		FS: func(op, path string) {
 			H.Activity.Add(1)
+			core.Activity.Add(1)
 			if f := H.FS; f != nil {
 				f(op, path)
 			}
